@@ -407,24 +407,30 @@ def wiring(ctx: Ctx, rule="WIRING"):
             ok = isinstance(a0, ast.Name) and a0.id == par and a1 is not None and _is_self_attr(a1, "dim")
         detail = f"self.radius = {U(v)}"
     ctx.decide(ok, rule, f"{SD}.volume@setter", fi, "self.radius = radius_from_volume(volume, self.dim)", "expected self.radius = radius_from_volume(volume, self.dim); " + detail)
-    # from_volume
-    fi = m.func(f"{SD}.from_volume")
-    fv = view(m, fi)
-    rets = fv.return_nodes()
-    ok, detail = False, "no single return of cls(position, radius)"
-    if len(rets) == 1 and isinstance(rets[0].stmt.value, ast.Call):
-        call = rets[0].stmt.value
-        if isinstance(call.func, ast.Name) and call.func.id == "cls":
-            pos, rad = arg_or_kw(call, 0, "position"), arg_or_kw(call, 1, "radius")
-            if pos is not None and rad is not None:
-                rad_x = fv.expand(rad, rets[0])
-                detail = f"radius = {U(rad_x)}"
-                r = callee_role(fi, rad_x)
-                if r and r[0] == "radius_from_volume" and r[1].startswith(SPH):
-                    a0, a1 = arg_or_kw(rad_x, 0, "volume"), arg_or_kw(rad_x, 1, "dim")
-                    dim_ok = a1 is not None and isinstance(a1, ast.Call) and (dotted(a1.func) or "").endswith("len") and "position" in U(a1)
-                    ok = isinstance(a0, ast.Name) and a0.id == "volume" and dim_ok and isinstance(pos, ast.Name) and pos.id == "position"
-    ctx.decide(ok, rule, f"{SD}.from_volume", fi, "cls(position, radius_from_volume(volume, len(position)))", "expected cls(position, radius_from_volume(volume, len(position))); " + detail)
+    # from_volume: the base class' and every override in a subclass
+    sd_ci0 = m.cls("SphericalDroplet")
+    for ci0 in [sd_ci0] + m.subclasses(sd_ci0):
+        lst0 = ci0.methods.get("from_volume", [])
+        if not lst0:
+            continue
+        fi = lst0[0]
+        fv = view(m, fi)
+        rets = fv.return_nodes()
+        ok, detail = False, "no single return of cls(position, radius)"
+        if len(rets) == 1 and isinstance(rets[0].stmt.value, ast.Call):
+            call = rets[0].stmt.value
+            if isinstance(call.func, ast.Name) and call.func.id == "cls":
+                pos, rad = arg_or_kw(call, 0, "position"), arg_or_kw(call, 1, "radius")
+                if pos is not None and rad is not None:
+                    rad_x = fv.expand(rad, rets[0], allow_mutated=True)
+                    detail = f"radius = {U(rad_x)}"
+                    r = callee_role(fi, rad_x)
+                    if r and r[0] == "radius_from_volume" and r[1].startswith(SPH):
+                        a0, a1 = arg_or_kw(rad_x, 0, "volume"), arg_or_kw(rad_x, 1, "dim")
+                        dim_ok = a1 is not None and isinstance(a1, ast.Call) and (dotted(a1.func) or "").endswith("len") and "position" in U(a1)
+                        ok = isinstance(a0, ast.Name) and a0.id == "volume" and dim_ok and isinstance(pos, ast.Name) and pos.id == "position"
+        ctx.decide(ok, rule, f"{ci0.qualname}.from_volume", fi, "cls(position, radius_from_volume(volume, len(position)))",
+                   "expected cls(position, radius_from_volume(volume, len(position))) — the space dimension is the number of coordinates of the position; " + detail)
     # curvature
     fi = m.func(f"{SD}.interface_curvature")
     v = single_return_call(fi)
